@@ -104,6 +104,8 @@ class World:
         self.disconnected = set()  # nicks that went away without announcement
         self.dead = False
         self.last_snap = None
+        self.serial_noise = None  # a random.Random: send grammar-equivalent serialisations
+        self.noise_kinds = collections.Counter()
 
     # ------------------------------------------------------------ plumbing
     def log(self, cid, line):
@@ -232,6 +234,8 @@ class World:
         """one command by a registered client, barrier, check"""
         c = self.clients[cid]
         line = render(cmd)
+        if self.serial_noise is not None:
+            line = self.vary(line, self.model.conn[cid]["nick"])
         self.log(cid, line)
         pre = self.model.clone()
         exp = self.model.step(cid, cmd)
@@ -282,6 +286,42 @@ class World:
             self.violate("die-process-alive", exp.props, exp.shape, "server process still running 5 s after " + line)
         self.dead = True
         return self.violations
+
+    def vary(self, line, nick):
+        """a grammar-equivalent serialisation of the same message (C13 metamorphic twin)"""
+        from . import grammar
+        r = self.serial_noise
+        try:
+            src, verb, params = grammar.parse(line)
+        except grammar.ParseError:
+            return line
+        kinds = []
+        if r.random() < 0.4:
+            verb = "".join(ch.lower() if r.random() < 0.5 else ch.upper() for ch in verb)
+            kinds.append("case")
+        if src is None and r.random() < 0.25:
+            src = r.choice([nick or "x", "%s!~u@h" % (nick or "x"), "irc.example.org"])
+            kinds.append("source")
+        blanks = r.choice([1, 1, 2, 3])
+        lead = r.choice([0, 0, 1, 2])
+        tail = r.choice([0, 0, 1, 2])
+        force = r.random() < 0.4
+        if blanks > 1:
+            kinds.append("blanks")
+        if lead:
+            kinds.append("lead")
+        if force:
+            kinds.append("colon-on-last")
+        try:
+            out = grammar.serialize(src, verb, params, force_trailing=force, blanks=blanks, lead=lead,
+                                    tail=tail)
+        except ValueError:
+            return line
+        if tail and out.endswith(" "):
+            kinds.append("tail")
+        for k in kinds:
+            self.noise_kinds[k] += 1
+        return out
 
     def end_client(self, cid, how="close"):
         """client side ending; waits until the server has forgotten the user"""
@@ -444,6 +484,13 @@ class World:
             if k != cid and k != 0 and nums:
                 self.violate("bystander-numeric", exp.props, exp.shape,
                              "connection %s got %s" % (k, [m.raw for m in nums][:3]))
+
+        # --- framing of everything the server emitted (CRLF terminated, no bare CR/LF inside)
+        for k, c in self.clients.items():
+            if c.bad_frames:
+                self.violate("bad-frame", {"C13", "C20"}, exp.shape,
+                             "connection %s received a mis-framed line: %s" % (k, c.bad_frames[:2]))
+                c.bad_frames = []
 
         # --- bookkeeping of closed sockets
         for k in list(closed):
